@@ -98,7 +98,7 @@ class RotatedToricCode(StabilizerCode):
                 raise ValueError('{} dimensions must be even.'.format(type(self).__name__))
         except TypeError as ex:
             raise TypeError('{} invalid parameter type'.format(type(self).__name__)) from ex
-        self._size = rows, columns
+        self._size = operator.index(rows), operator.index(columns)
 
     # < StabilizerCode interface methods >
 
